@@ -1,7 +1,7 @@
 (* C02 — Work and memory are bounded by real input size, never by declared sizes (scan part). *)
 From Coq Require Import ZArith List Lia Bool.
 Import ListNotations.
-From LX Require Import Base.ListAux Model.ScanSkel Proofs.ScanSkelProofs Model.Linear Proofs.LinearProofs Model.MixLoop Proofs.MixLoopProofs.
+From LX Require Import Base.ListAux Model.ScanSkel Proofs.ScanSkelProofs Model.Linear Proofs.LinearProofs Model.MixLoop Proofs.MixLoopProofs Generated.Consts Model.Lzw.
 Local Open Scope Z_scope.
 
 (* Whatever the patterns contain - any jumps, breaks, loops, delays, self-referential or not: the skeleton makes no
@@ -40,6 +40,20 @@ Proof.
   assert (Z.of_nat (length evs) <= T + Z.max 0 T) by (apply B; [lia|intros _; lia]). lia.
 Qed.
 Print Assumptions mixer_inner_loop_bounded.
+
+(* compress (.Z): whatever the stream declares or encodes (LZW strings reach 64 KiB per 16-bit code), an accepted stream has
+   unpacked to fewer bytes than the library's fixed unpack ceiling; the differential of C08 and the over-ceiling bomb of this
+   check tie the clause to decrunch_compress *)
+Theorem compress_output_below_ceiling : forall file out, uncompress file = Some out -> Z.of_nat (length out) < C_LIBXMP_DEPACK_LIMIT.
+Proof.
+  intros file out H. unfold uncompress in H.
+  destruct file as [|m1 [|m2 [|h payload]]]; try discriminate.
+  destruct (negb _); [discriminate|]. destruct (_ || _); [discriminate|].
+  destruct (dec_codes _ _ _) as [s|]; [|discriminate]. cbv zeta in H.
+  destruct (Z.leb_spec C_LIBXMP_DEPACK_LIMIT (Z.of_nat (length (rev_append (d_out s) [])))) as [Hge|Hlt]; [discriminate|].
+  injection H as <-. exact Hlt.
+Qed.
+Print Assumptions compress_output_below_ceiling.
 
 (* non-vacuity: three cells; a loop over cell 1 until its counter wraps is a legal trace and is within the bound *)
 Example c02_nonvacuous :
